@@ -113,7 +113,7 @@ class OpAdd(Op):
         # A copy, so that later modifications of the target document (by this
         # patch or the caller) can't change the value held by the patch.
         value = copy.deepcopy(self.value)
-        parent, obj = self.path.resolve_parent(data)
+        parent, obj = self.path._resolve_parent(data)
         if parent is None:
             # Replace the root object.
             # The following op, if any, will raise a JSONPatchError if needed.
@@ -162,7 +162,7 @@ class OpAddNe(OpAdd):
         # A copy, so that later modifications of the target document (by this
         # patch or the caller) can't change the value held by the patch.
         value = copy.deepcopy(self.value)
-        parent, obj = self.path.resolve_parent(data)
+        parent, obj = self.path._resolve_parent(data)
         if parent is None:
             # Replace the root object.
             # The following op, if any, will raise a JSONPatchError if needed.
@@ -205,7 +205,7 @@ class OpAddAp(OpAdd):
         # A copy, so that later modifications of the target document (by this
         # patch or the caller) can't change the value held by the patch.
         value = copy.deepcopy(self.value)
-        parent, obj = self.path.resolve_parent(data)
+        parent, obj = self.path._resolve_parent(data)
         if parent is None:
             # Replace the root object.
             # The following op, if any, will raise a JSONPatchError if needed.
@@ -240,7 +240,7 @@ class OpRemove(Op):
         self, data: Union[MutableSequence[object], MutableMapping[str, object]]
     ) -> Union[MutableSequence[object], MutableMapping[str, object]]:
         """Apply this patch operation to _data_."""
-        parent, obj = self.path.resolve_parent(data)
+        parent, obj = self.path._resolve_parent(data)
         if parent is None:
             raise JSONPatchError("can't remove root")
 
@@ -281,7 +281,7 @@ class OpReplace(Op):
         # A copy, so that later modifications of the target document (by this
         # patch or the caller) can't change the value held by the patch.
         value = copy.deepcopy(self.value)
-        parent, obj = self.path.resolve_parent(data)
+        parent, obj = self.path._resolve_parent(data)
         if parent is None:
             return value  # type: ignore
 
@@ -322,7 +322,7 @@ class OpMove(Op):
         if self.dest.is_relative_to(self.source):
             raise JSONPatchError("can't move object to one of its own children")
 
-        source_parent, source_obj = self.source.resolve_parent(data)
+        source_parent, source_obj = self.source._resolve_parent(data)
 
         if source_obj is UNDEFINED:
             raise JSONPatchError("source object does not exist")
@@ -356,7 +356,7 @@ class OpCopy(Op):
         self, data: Union[MutableSequence[object], MutableMapping[str, object]]
     ) -> Union[MutableSequence[object], MutableMapping[str, object]]:
         """Apply this patch operation to _data_."""
-        source_parent, source_obj = self.source.resolve_parent(data)
+        source_parent, source_obj = self.source._resolve_parent(data)
 
         if source_obj is UNDEFINED:
             raise JSONPatchError("source object does not exist")
@@ -385,7 +385,7 @@ class OpTest(Op):
         self, data: Union[MutableSequence[object], MutableMapping[str, object]]
     ) -> Union[MutableSequence[object], MutableMapping[str, object]]:
         """Apply this patch operation to _data_."""
-        _, obj = self.path.resolve_parent(data)
+        _, obj = self.path._resolve_parent(data)
         if not _json_equal(obj, self.value):
             raise JSONPatchTestFailure
         return data
